@@ -74,21 +74,21 @@ func (c *sconn) Write(p []byte) (int, error) {
 
 	return len(p), nil
 }
-func (c *sconn) Close() error                        { return nil }
-func (c *sconn) LocalAddr() net.Addr                 { return addrLocal }
-func (c *sconn) RemoteAddr() net.Addr                { return addrRemote }
-func (c *sconn) SetDeadline(time.Time) error         { return nil }
-func (c *sconn) SetReadDeadline(time.Time) error     { return nil }
-func (c *sconn) SetWriteDeadline(time.Time) error    { return nil }
-func (c *sconn) CloseRead() error                    { return nil }
-func (c *sconn) CloseWrite() error                   { return nil }
-func (c *sconn) ReadFrom(io.Reader) (int64, error)   { return 0, errors.New("c10: not scripted") }
-func (c *sconn) SetLinger(int) error                 { return nil }
-func (c *sconn) SetKeepAlive(bool) error             { return nil }
+func (c *sconn) Close() error                           { return nil }
+func (c *sconn) LocalAddr() net.Addr                    { return addrLocal }
+func (c *sconn) RemoteAddr() net.Addr                   { return addrRemote }
+func (c *sconn) SetDeadline(time.Time) error            { return nil }
+func (c *sconn) SetReadDeadline(time.Time) error        { return nil }
+func (c *sconn) SetWriteDeadline(time.Time) error       { return nil }
+func (c *sconn) CloseRead() error                       { return nil }
+func (c *sconn) CloseWrite() error                      { return nil }
+func (c *sconn) ReadFrom(io.Reader) (int64, error)      { return 0, errors.New("c10: not scripted") }
+func (c *sconn) SetLinger(int) error                    { return nil }
+func (c *sconn) SetKeepAlive(bool) error                { return nil }
 func (c *sconn) SetKeepAlivePeriod(time.Duration) error { return nil }
-func (c *sconn) SetNoDelay(bool) error               { return nil }
-func (c *sconn) SetWriteBuffer(int) error            { return nil }
-func (c *sconn) SetReadBuffer(int) error             { return nil }
+func (c *sconn) SetNoDelay(bool) error                  { return nil }
+func (c *sconn) SetWriteBuffer(int) error               { return nil }
+func (c *sconn) SetReadBuffer(int) error                { return nil }
 
 // ---------------------------------------------------------------------------
 // Frame alphabet.
